@@ -242,8 +242,21 @@ func (vc *VC) exec(st *State, s ast.Stmt) *State {
 	case *ast.GoStmt:
 		// the goroutine body is not part of this function's VC; arguments are evaluated
 		if _, ok := s.Call.Fun.(*ast.FuncLit); !ok {
+			var gargs []Term
 			for _, a := range s.Call.Args {
-				vc.eval(st, a)
+				gargs = append(gargs, vc.eval(st, a))
+			}
+			// "before" assertions / ghost updates anchored at the started call see its arguments
+			if items := vc.anchored[s.Call]; len(items) > 0 {
+				pre := st.clone()
+				saved := vc.argTerms
+				vc.argTerms = gargs
+				for _, it := range items {
+					if it.gu.When == "before" {
+						vc.applyAnchored(st, s.Call, it, nil, pre)
+					}
+				}
+				vc.argTerms = saved
 			}
 		}
 		vc.note("go statement: body runs in another thread, not in this VC")
@@ -1155,6 +1168,12 @@ func (vc *VC) execSelect(st *State, s *ast.SelectStmt, label string) *State {
 				b.assume(app(SBool, ">=", t, app(SInt, "+", now0, d)))
 			}
 			b.heap["gl$$now"] = t
+		}
+		if snd, ok := cc.Comm.(*ast.SendStmt); ok {
+			// a send case on a nil channel is never ready (Go spec): the chosen case has a non-nil channel
+			if ch, ok := vc.preEval[snd.Chan]; ok && ch.Sort == SInt {
+				b.assume(Not(Eq(ch, IntLit(0))))
+			}
 		}
 		if cc.Comm != nil {
 			b = vc.exec(b, cc.Comm)
